@@ -112,5 +112,5 @@ func main() {
 		"string immutability is assumed for string inputs (a write through an unsafe view would fault); []byte inputs are compared with a copy after every call",
 		"the hashz non-cryptographic string hashes (BKDR, AP, DJB, ...) have no standard-library counterpart and are outside this property",
 	)
-	r.Finish("every input of each family is enumerated exactly once (no sampling; overlaps between families are skipped in the later family); one evaluation = one input tuple run through the string and the []byte form of every entry point of its family; non-trivial = ParseUint: the oracle returns an error or the accepted text has >= 2 characters; hex/base64 decode: the oracle returns an error or >= 1 decoded byte; hex/base64 encode: input of >= 1 byte; digests/HMAC: data or key of >= 1 byte; streams: script with >= 1 deviation from the single full read; IPv4: address with at least one field >= 10")
+	r.Finish("every input of each family is enumerated exactly once (no sampling; overlaps between families are skipped in the later family); one evaluation = one input tuple run through the string and the []byte form of every entry point of its family; non-trivial = ParseUint: base and bit size are legal for strconv and the oracle either fails or accepts a text of >= 2 characters; hex/base64 decode: the oracle returns an error or >= 1 decoded byte; hex/base64 encode: input of >= 1 byte; digests/HMAC: data or key of >= 1 byte; streams: script with >= 1 deviation from the single full read; IPv4: address with at least one field >= 10")
 }
